@@ -218,8 +218,12 @@ def run(tier, seed=0, replay=None, procs=None, only=None):
         cs = [c for c in cs if re.search(only, c.name)]
     from symx.runner import main_run
     q = tier == 'quick'
+    from symx import envsweep
     return main_run(
         PROP, tier, cs, functions=c08.functions() + _more_functions(), seed=seed, procs=procs or 16,
+        late_checks=envsweep.late([('clip_save_reopen', 'the clipped dataset can be saved and reopened as a dataset of the same convention',
+                                    lambda v: v['convention'] == 'CFGrid1D' and v['shape'] == [2, 2, 2] and v['values'] == [0.0, 1.0, 4.0, 5.0, 12.0, 13.0, 16.0, 17.0]
+                                    and len(v['polygons']) == 4 and v['instants'][0].startswith('2020-01-01T00:00:00'))], only),
         bounds=dict(
             datasets='as C08: grids 2x2..3x3 of every convention (coordinates as xarray coordinates or plain variables), meshes with six '
                      'subsets of the optional connectivity, 0/1-based, NaN / _FillValue attribute',
